@@ -128,6 +128,11 @@ def work_stack(job):
         ks = sorted(n for (cl, n) in hw if cl == closed)
         if len(ks) >= 2:
             small, large = ks[-2], ks[-1]
+            # the plateau can only be judged between two sizes that are both beyond the depth limits (1000 levels): when the time budget (machine
+            # load) cut the series short, the two largest sizes left may both be below them, where the stack legitimately still grows with depth
+            if small < (10000 if o is not None else 40000):
+                r.stats['stack plateau not judged: series cut short by the time budget'] += 1
+                continue
             if hw[(closed, large)] > 2 * hw[(closed, small)] + 65536:
                 r.violate('stack-grows:%s' % name, '%s (%s): stack high-water %d KiB at %d bytes vs %d KiB at %d bytes -- still growing with depth' %
                           (name, 'closed' if closed else 'unclosed', hw[(closed, large)] // 1024, large, hw[(closed, small)] // 1024, small),
